@@ -315,7 +315,7 @@ def r4(ctx):
         coll_names = {choice.value.id} | ({util.root_name(od[0])} if od else set())
     elif isinstance(choice, ast.Call) and u(choice.func) == "max" and choice.args:
         key = [k.value for k in choice.keywords if k.arg == "key"]
-        okc = len(key) == 1 and isinstance(key[0], ast.Lambda) and u(key[0].body).replace(key[0].args.args[0].arg, "_").replace(" ", "") == "max(_[1])"
+        okc = (None if not key else (len(key) == 1 and isinstance(key[0], ast.Lambda) and u(key[0].body).replace(key[0].args.args[0].arg, "_").replace(" ", "") == "max(_[1])"))
         coll_names = {util.root_name(choice.args[0])}
     ok = any((c_, True) in ga for c_ in coll_names)
     ctx.ob(fi.qual, "no-scores-no-tag", ok, fi.loc(st.stmt), "a read without any phased variant (empty score collection) is not assigned" if ok else "the assignment is not guarded by the score collection (%s) being non-empty" % sorted(coll_names))
@@ -389,7 +389,7 @@ def r4(ctx):
     md = util.single_def(gv.node, mapname)
     if isinstance(md, ast.DictComp):
         stored.append(md.value)
-    ok = len(stored) == 1 and isinstance(stored[0], ast.Tuple) and len(stored[0].elts) == 2
+    ok = (None if not stored else (len(stored) == 1 and isinstance(stored[0], ast.Tuple) and len(stored[0].elts) == 2))
     if ok:
         e0, e1 = stored[0].elts
         ok = isinstance(e0, ast.Call) and u(e0.func) == "int" and len(e0.args) == 1 and isinstance(e0.args[0], ast.Attribute) and e0.args[0].attr == "block_id" and isinstance(e1, ast.Attribute) and e1.attr == "phase" and u(e1.value) == u(e0.args[0].value)
@@ -402,7 +402,7 @@ def r4(ctx):
         if isinstance(v_, tuple) and v_[0] == "unpack" and isinstance(s_, ast.Assign) and isinstance(s_.targets[0], ast.Tuple) and len(s_.targets[0].elts) == 2:
             psname = u(s_.targets[0].elts[0])
     aug = [n for n in walk_function(fi.node) if isinstance(n, ast.AugAssign) and u(n.target) == "haplotype_costs[%s][hap_index]" % psname]
-    ok = len(aug) == 1 and u(aug[0].value) == "v.quality" and ("hap_allele == v.allele", True) in guard_atoms(cfg, cfg.node_of(aug[0]))
+    ok = (None if not aug else (len(aug) == 1 and u(aug[0].value) == "v.quality" and ("hap_allele == v.allele", True) in guard_atoms(cfg, cfg.node_of(aug[0]))))
     ctx.ob(fi.qual, "score-adds-quality-on-agreement", ok, fi.loc(aug[0]) if aug else fi.loc(), "a haplotype's score grows by the allele quality exactly when the read's allele equals the haplotype's allele, within the variant's phase set" if ok else "score accumulation is not `+= v.quality` under v.allele == hap_allele into [phaseset][hap_index]")
 
 
